@@ -124,6 +124,7 @@ func runArgOps(isArgs bool, ops []argOp) W {
 }
 
 func genArgs(c *Ctx) {
+	genLiteral(c)
 	keys := []string{"a", "b", "ab", "", "é", "z", "B", "a.b"}
 	var vals []datamodel.Node
 	for _, j := range []string{`1`, `"x"`, `null`, `[1,2]`, `{"k":1}`, `{"b":2,"a":1}`, `9007199254740991`, `[{"x":[9007199254740991]}]`, `1.5`, `true`, `{"/":{"bytes":"AQI"}}`} {
